@@ -76,3 +76,12 @@ Example C12_examples :
   repl_run true 100 [l1 ++ l3] = ([EvFlush [3; 2] []], RAlive).
 Proof. vm_compute. split; reflexivity. Qed.
 Print Assumptions C12_examples.
+
+(* non-vacuity of the session theorem: two lines, `clear`, the same two lines again — two segments, each shown as its whole run *)
+Example C12_session_example :
+  let l1 := [54805;46;46;32;54805;46;46;46;10] in let l3 := [54637;46;32;54637;46;10] in let c := [99;108;101;97;114;10] in
+  repl_run true 100 (join_clear c [[l1; l3]; [l1; l3]]) = ([EvFlush [] []; EvFlush [3; 2] []; EvFlush [] []; EvFlush [] []; EvFlush [3; 2] []], RAlive) /\
+  leqb (trim c) KW_CLEAR = true /\ forallb plain_line [l1; l3] = true /\
+  beh (run_inc 100 [] (flat_map line_cmds [l1; l3]) (state0 SUnopt [])) = (KDone, [3; 2], []).
+Proof. vm_compute. repeat split; reflexivity. Qed.
+Print Assumptions C12_session_example.
